@@ -97,7 +97,7 @@ var fdOpNames = []string{"Derivative", "Gradient", "Jacobian", "Hessian", "Lapla
 func drawFD(t *simrt.Tape) *fdInst {
 	in := &fdInst{}
 	in.op = t.Choose(simrt.KWorkload, 6)
-	in.dim = 1 + t.Choose(simrt.KWorkload, 6)
+	in.dim = 1 + t.Choose(simrt.KWorkload, 5+scale)
 	if in.op == 0 {
 		in.dim = 1
 	}
